@@ -234,11 +234,30 @@ def stack_strategy():
     return st.fixed_dictionaries({
         'outer': st.lists(mw, max_size=4, unique_by=lambda t: t[0]),
         'inner': st.one_of(st.none(), st.lists(mw, max_size=3, unique_by=lambda t: t[0])),
+        'inner2': st.one_of(st.none(), st.none(), st.lists(mw, max_size=3, unique_by=lambda t: t[0])),
         'routes': st.sampled_from(['one', 'two', 'none', 'embedded-only']),
         'prefix': st.sampled_from(['/sub', '/', '/a/b']),
         'request': st.sampled_from(['hit', 'miss', 'inner', 'wrongmethod']),
         'validator': st.booleans(),
     })
+
+
+def order_problem(seen, outer_w, inner_w, expected_set):
+    """the statement fixes: every wrapper type once; each list's own order; an embedding application's wrappers before
+    those only embedded applications contribute.  The relative order of two sibling applications is not fixed."""
+    if sorted(seen) != sorted(expected_set):
+        return 'expected each of %r exactly once' % (expected_set,)
+    pos = dict((w, i) for i, w in enumerate(seen))
+    if [w for w in seen if w in outer_w] != outer_w:
+        return 'the embedding application\'s list order is not kept'
+    inner_only = [w for w in seen if w not in outer_w]
+    if outer_w and inner_only and max(pos[w] for w in outer_w) > min(pos[w] for w in inner_only):
+        return 'an embedded application\'s wrapper runs outside the embedding application\'s'
+    for lst in inner_w:
+        own = [w for w in lst if w not in outer_w]
+        if [w for w in seen if w in own] != own and not any(w in other for w in own for other in inner_w if other is not lst):
+            return 'an embedded application\'s list order is not kept'
+    return None
 
 
 def stack_body(case, ctx):
@@ -251,29 +270,36 @@ def stack_body(case, ctx):
         routes.append(Route('/hit', lambda: Response('hit')))
     if case['routes'] == 'two':
         routes.append(POST('/wrongmethod', lambda: Response('post')))
-    inner_spec = case['inner']
-    if inner_spec is not None and case['routes'] != 'none':
-        # a unique type present at both levels must be the *same class* with the same wrapper-ness: it is merged once
-        inner_mws = [wrapper_mw(t, has_w.get(t, w)) for t, w in inner_spec]
-        inner = Application([Route('/in', lambda: Response('inner'))], middlewares=inner_mws)
-        routes.append((case['prefix'], inner))
-    else:
-        inner_spec = None
+    inner_specs = []
+    if case['routes'] != 'none':
+        for k, key in enumerate(('inner', 'inner2')):
+            spec_k = case.get(key)
+            if spec_k is None:
+                continue
+            # a type present at several levels must be the same class with the same wrapper-ness; every application
+            # gets its *own instances* (two sibling applications listing one unique type still count as one type)
+            spec_k = [(t, has_w.setdefault(t, w)) for t, w in spec_k]
+            inner_mws = [wrapper_mw(t, w) for t, w in spec_k]
+            inner = Application([Route('/in', lambda: Response('inner'))], middlewares=inner_mws)
+            routes.append((case['prefix'] if k == 0 else '/second', inner))
+            inner_specs.append(spec_k)
+    inner_spec = inner_specs[0] if inner_specs and case.get('inner') is not None else None
     try:
         app = Application(routes, middlewares=outer_mws)
     except Exception as e:
         ctx.mismatch('wrapper-app-construction', 'constructing the application raised %r' % e, rc)
         return
-    expected = [m.wid for m in outer_mws if (m.wid, True) in [('W%d' % t, w) for t, w in case['outer']]]
-    if inner_spec is not None:
-        for t, w in inner_spec:
-            w = has_w.get(t, w)
-            if w and 'W%d' % t not in expected and t not in has_w:
-                expected.append('W%d' % t)
+    outer_w = ['W%d' % t for t, w in case['outer'] if w]
+    inner_w = [['W%d' % t for t, w in sp if w] for sp in inner_specs]
+    expected_set = list(outer_w)
+    for lst in inner_w:
+        for wid in lst:
+            if wid not in expected_set:
+                expected_set.append(wid)
     path = {'hit': '/hit', 'miss': '/zzz', 'wrongmethod': '/wrongmethod',
             'inner': (case['prefix'].rstrip('/') + '/in')}[case['request']]
     del SEEN[:]
-    what = 'GET %s on outer %s inner %s routes=%s' % (path, case['outer'], inner_spec, case['routes'])
+    what = 'GET %s on outer %s embedded %s routes=%s' % (path, case['outer'], inner_specs, case['routes'])
     if case['validator']:
         r = check_conformance(ctx, app, path, 'GET', {}, b'', what, rc)
     else:
@@ -284,13 +310,13 @@ def stack_body(case, ctx):
             return
     if r is None:
         return
-    if list(SEEN) != expected:
+    problem = order_problem(list(SEEN), outer_w, inner_w, expected_set)
+    if problem:
         sig = 'wrappers-without-routes' if (case['routes'] == 'none' or not app.routes) else 'wrapper-order'
-        ctx.mismatch(sig, '%s: wrappers ran as %r, expected %r (list order, embedding application first, unique type once)'
-                     % (what, list(SEEN), expected), rc)
+        ctx.mismatch(sig, '%s: wrappers ran as %r: %s (outer list %r, embedded lists %r)' % (what, list(SEEN), problem, outer_w, inner_w), rc)
         return
     ctx.event('routes-' + case['routes'])
-    if len(expected) >= 2 or inner_spec is not None or case['routes'] == 'none':
+    if len(expected_set) >= 2 or inner_specs or case['routes'] == 'none':
         ctx.nt(rc, sample=len(ctx.samples) < 2)
 
 
